@@ -116,356 +116,12 @@ pub fn search(out: &mut Out, g: &Game, table: &mut TranspositionTable, limit: Op
     }
 }
 
-// ------------------------------------------------------------------------------------------
-// roots and histories
-
-/// A root: a start FEN plus moves played into the game record (`position fen .. moves ..`).
-#[derive(Clone, Debug)]
-pub struct Root {
-    pub fen: String,
-    pub moves: Vec<String>,
-}
+pub use crate::roots::*;
 
 impl Root {
-    pub fn json(&self) -> Value {
-        json!({"fen": self.fen, "moves": self.moves.join(" ")})
-    }
-    pub fn from_json(v: &Value) -> Option<Root> {
-        Some(Root {
-            fen: v["fen"].as_str()?.to_string(),
-            moves: v["moves"].as_str()?.split_ascii_whitespace().map(|s| s.to_string()).collect(),
-        })
-    }
-    pub fn shadow(&self) -> Option<Pos> {
-        let mut p = fen::parse_strict(&self.fen).ok()?;
-        for t in &self.moves {
-            let m = p.find_uci(t)?;
-            p = p.make(&m);
-        }
-        Some(p)
-    }
     pub fn game(&self) -> Result<Game, String> {
         eng::load_and_play(&self.fen, &self.moves)
     }
-    pub fn key(&self) -> u64 {
-        fnv(format!("{} {}", self.fen, self.moves.join(" ")).as_bytes())
-    }
-}
-
-/// Oracle-only random game: the move texts of a game from `spec`.
-pub fn game_moves(spec: &GameSpec) -> Vec<String> {
-    let Ok(mut p) = fen::parse_strict(&spec.start_fen) else { return vec![] };
-    let mut rng = Rng::new(spec.seed, 1);
-    let mut v = vec![];
-    for _ in 0..spec.max_plies {
-        let legal = p.legal_moves();
-        if legal.is_empty() {
-            break;
-        }
-        let m = gen::pick_move(&p, &legal, spec.policy, &mut rng);
-        v.push(m.uci());
-        p = p.make(&m);
-    }
-    v
-}
-
-/// A root whose game record ends in a repetition pattern (opponent: o1, we: u1, o1 back, u1
-/// back, o1 again): the driver's repetition filter removes u1 from the root list there. Checking
-/// first moves are preferred, which often leaves u1 as the only legal reply.
-pub fn repetition_root(corpus: &[String], rng: &mut Rng) -> Option<Root> {
-    use chess_oracle::Kind;
-    let quiet = |p: &Pos, m: &Mv| m.kind == Kind::Normal && o::kind(p.b[m.from as usize]) != o::PAWN && p.b[m.to as usize] == o::EMPTY;
-    let rev = |m: &Mv| Mv { from: m.to, to: m.from, promo: 0, kind: Kind::Normal };
-    for _ in 0..80 {
-        let base = if rng.chance(2, 3) {
-            let extra = 1 + rng.below(5);
-            gen::random_small_pos(rng, extra)
-        } else {
-            match random_root_plain(corpus, rng, 16).shadow() {
-                Some(p) => p,
-                None => continue,
-            }
-        };
-        let w = base.white_to_move;
-        let c0: Vec<Mv> = base.legal_moves().into_iter().filter(|m| quiet(&base, m)).collect();
-        if c0.is_empty() {
-            continue;
-        }
-        let checks: Vec<Mv> = c0.iter().copied().filter(|m| base.make(m).in_check(!w)).collect();
-        let o1 = if !checks.is_empty() && rng.chance(3, 4) { *rng.pick(&checks) } else { *rng.pick(&c0) };
-        let p1 = base.make(&o1);
-        let c1: Vec<Mv> = p1.legal_moves().into_iter().filter(|m| quiet(&p1, m)).collect();
-        if c1.is_empty() {
-            continue;
-        }
-        let u1 = *rng.pick(&c1);
-        let p2 = p1.make(&u1);
-        let o1r = rev(&o1);
-        if !p2.legal_moves().contains(&o1r) {
-            continue;
-        }
-        let p3 = p2.make(&o1r);
-        let u1r = rev(&u1);
-        if !p3.legal_moves().contains(&u1r) {
-            continue;
-        }
-        let p4 = p3.make(&u1r);
-        if !p4.legal_moves().contains(&o1) {
-            continue;
-        }
-        return Some(Root {
-            fen: fen::render6(&base, 0, 1),
-            moves: vec![o1.uci(), u1.uci(), o1r.uci(), u1r.uci(), o1.uci()],
-        });
-    }
-    None
-}
-
-pub fn random_root(corpus: &[String], rng: &mut Rng, max_pieces: usize) -> Root {
-    if rng.chance(1, 10) {
-        if let Some(r) = repetition_root(corpus, rng) {
-            return r;
-        }
-    }
-    random_root_plain(corpus, rng, max_pieces)
-}
-
-/// A root taken from a random game (biased to a maximum piece count when `max_pieces` < 32).
-pub fn random_root_plain(corpus: &[String], rng: &mut Rng, max_pieces: usize) -> Root {
-    for _ in 0..50 {
-        if max_pieces <= 10 && rng.chance(1, 2) {
-            let p = gen::random_small_pos(rng, max_pieces.saturating_sub(2));
-            return Root { fen: fen::render6(&p, 0, 1), moves: vec![] };
-        }
-        let mut spec = gen::game_spec(corpus, rng.next(), rng.next() % 1000);
-        if max_pieces < 32 {
-            spec.policy = 6;
-            spec.max_plies = spec.max_plies.max(80);
-        }
-        spec.max_plies = spec.max_plies.min(160);
-        let moves = game_moves(&spec);
-        if moves.is_empty() {
-            continue;
-        }
-        let cut = rng.below(moves.len() + 1);
-        let root = Root { fen: spec.start_fen.clone(), moves: moves[..cut].to_vec() };
-        if let Some(p) = root.shadow() {
-            if p.piece_count() <= max_pieces {
-                // half of the time hand the position over as text (no game record)
-                if rng.chance(1, 2) {
-                    return Root { fen: fen::render6(&p, 0, 1), moves: vec![] };
-                }
-                return root;
-            }
-        }
-    }
-    Root { fen: gen::START_FEN.into(), moves: vec![] }
-}
-
-#[derive(Clone, Debug)]
-pub struct HStep {
-    pub root: Root,
-    pub limit: Option<u8>,
-    pub stop_at: u64,
-    pub clear_table: bool,
-}
-
-impl HStep {
-    pub fn json(&self) -> Value {
-        json!({"root": self.root.json(), "limit": self.limit, "stop_at": self.stop_at, "clear_table": self.clear_table})
-    }
-    pub fn from_json(v: &Value) -> Option<HStep> {
-        Some(HStep {
-            root: Root::from_json(&v["root"])?,
-            limit: v["limit"].as_u64().map(|d| d as u8),
-            stop_at: v["stop_at"].as_u64().unwrap_or(0),
-            clear_table: v["clear_table"].as_bool().unwrap_or(false),
-        })
-    }
-}
-
-/// A dead root searched first, then its ancestors: the order in which a table entry written for
-/// a checkmated / stalemated root is later met inside the tree of the positions before it.
-pub fn dead_end_prelude(rng: &mut Rng) -> Vec<HStep> {
-    for _ in 0..200 {
-        let extra = 1 + rng.below(4);
-        let start = gen::random_small_pos(rng, extra);
-        let mut p = start.clone();
-        let mut moves: Vec<String> = vec![];
-        for _ in 0..14 {
-            let legal = p.legal_moves();
-            if legal.is_empty() {
-                break;
-            }
-            // a move that ends the game at once (mate or stalemate), if there is one
-            let w = p.white_to_move;
-            let enders: Vec<Mv> = legal.iter().copied().filter(|m| !p.make(m).has_legal_move()).collect();
-            if !enders.is_empty() && moves.len() >= 2 {
-                let end = *rng.pick(&enders);
-                let fen0 = fen::render6(&start, 0, 1);
-                let mut dead = moves.clone();
-                dead.push(end.uci());
-                let mut steps = vec![HStep { root: Root { fen: fen0.clone(), moves: dead }, limit: Some(1 + rng.below(3) as u8), stop_at: 0, clear_table: false }];
-                for back in 0..3usize.min(moves.len()) {
-                    steps.push(HStep {
-                        root: Root { fen: fen0.clone(), moves: moves[..moves.len() - back].to_vec() },
-                        limit: Some((3 + back + rng.below(2)) as u8),
-                        stop_at: 0,
-                        clear_table: false,
-                    });
-                }
-                let _ = w;
-                return steps;
-            }
-            let m = *rng.pick(&legal);
-            moves.push(m.uci());
-            p = p.make(&m);
-        }
-    }
-    vec![]
-}
-
-/// The side to move is mated in two whatever it plays: first every checkmated position at the
-/// end of those lines is searched as a root, then the positions before the mates, then the
-/// doomed position itself (so every root move leads into cached dead positions).
-pub fn doomed_prelude(rng: &mut Rng) -> Vec<HStep> {
-    for _ in 0..400 {
-        let fam = if rng.chance(1, 2) { gen::Family::Kxk(o::QUEEN) } else { gen::Family::Kxk(o::ROOK) };
-        let Some(g) = gen::family_nth(fam, rng.next() % gen::family_size(fam)) else { continue };
-        let replies = g.legal_moves();
-        if replies.is_empty() || replies.len() > 4 {
-            continue;
-        }
-        let mut lines = vec![];
-        for r in &replies {
-            let p = g.make(r);
-            let mates = solve::mate_in_1(&p);
-            if mates.is_empty() {
-                lines.clear();
-                break;
-            }
-            lines.push((r.uci(), rng.pick(&mates).uci()));
-        }
-        if lines.is_empty() {
-            continue;
-        }
-        let fen0 = fen::render6(&g, 0, 1);
-        let mut steps = vec![];
-        for (r, m) in &lines {
-            steps.push(HStep { root: Root { fen: fen0.clone(), moves: vec![r.clone(), m.clone()] }, limit: Some(1 + rng.below(3) as u8), stop_at: 0, clear_table: false });
-        }
-        for (r, _) in &lines {
-            if rng.chance(1, 2) {
-                steps.push(HStep { root: Root { fen: fen0.clone(), moves: vec![r.clone()] }, limit: Some(2 + rng.below(3) as u8), stop_at: 0, clear_table: false });
-            }
-        }
-        steps.push(HStep { root: Root { fen: fen0.clone(), moves: vec![] }, limit: Some(3 + rng.below(3) as u8), stop_at: 0, clear_table: false });
-        steps.push(HStep { root: Root { fen: fen0, moves: vec![] }, limit: Some(5), stop_at: 0, clear_table: false });
-        return steps;
-    }
-    vec![]
-}
-
-/// A search history over one shared table: positions of one game in playing order, sibling
-/// positions, text twins differing only in rights / en-passant file, shallower-after-deeper and
-/// deeper-after-shallower limits, occasional stops at a random poll.
-pub fn make_history(corpus: &[String], rng: &mut Rng, len: usize, max_depth: u8) -> Vec<HStep> {
-    let mut spec = gen::game_spec(corpus, rng.next(), rng.next() % 4096);
-    spec.max_plies = spec.max_plies.clamp(20, 120);
-    if rng.chance(1, 3) {
-        spec.policy = 6;
-    }
-    let moves = game_moves(&spec);
-    let mut steps = vec![];
-    match rng.below(6) {
-        0 => steps.extend(dead_end_prelude(rng)),
-        1 | 2 => steps.extend(doomed_prelude(rng)),
-        _ => {}
-    }
-    let mut ply = if moves.is_empty() { 0 } else { rng.below(moves.len().min(40) + 1) };
-    while steps.len() < len {
-        let base = Root { fen: spec.start_fen.clone(), moves: moves[..ply.min(moves.len())].to_vec() };
-        let limit = Some(1 + rng.below(max_depth as usize) as u8);
-        let kind = rng.below(10);
-        let root = match kind {
-            0 => {
-                // sibling: same prefix, different last move
-                let mut r = base.clone();
-                if let Some(_) = r.moves.pop() {
-                    if let Some(p) = r.shadow() {
-                        let legal = p.legal_moves();
-                        if !legal.is_empty() {
-                            r.moves.push(rng.pick(&legal).uci());
-                        }
-                    }
-                }
-                r
-            }
-            1 => {
-                // text twin: same board, one right toggled or en-passant file changed (if sane)
-                match base.shadow() {
-                    Some(p) => {
-                        let mut twin = p.clone();
-                        if rng.chance(1, 2) {
-                            let i = rng.below(4);
-                            twin.castle[i] = !twin.castle[i];
-                        } else {
-                            twin.ep = if twin.ep.is_some() { None } else { Some(rng.below(8) as u8) };
-                        }
-                        if twin.is_sane() {
-                            Root { fen: fen::render6(&twin, 0, 1), moves: vec![] }
-                        } else {
-                            Root { fen: fen::render6(&p, 0, 1), moves: vec![] }
-                        }
-                    }
-                    None => base.clone(),
-                }
-            }
-            3 => match repetition_root(corpus, rng) {
-                Some(r) => r,
-                None => base.clone(),
-            },
-            2 => {
-                // the same position handed over as text instead of by moves
-                match base.shadow() {
-                    Some(p) => Root { fen: fen::render6(&p, 0, 1), moves: vec![] },
-                    None => base.clone(),
-                }
-            }
-            _ => base.clone(),
-        };
-        steps.push(HStep { root: root.clone(), limit, stop_at: if rng.chance(1, 8) { 1 + rng.range(0, 400) } else { 0 }, clear_table: rng.chance(1, 40) });
-        if rng.chance(1, 4) {
-            // same root again with another limit (shallower-after-deeper / deeper-after-shallower)
-            let l2 = Some(1 + rng.below(max_depth as usize) as u8);
-            steps.push(HStep { root, limit: l2, stop_at: 0, clear_table: false });
-        }
-        // advance like a game: usually two plies (own move + reply), sometimes one or a jump back
-        match rng.below(8) {
-            0 => ply = ply.saturating_sub(1 + rng.below(4)),
-            1..=2 => ply += 1,
-            _ => ply += 2,
-        }
-        if ply > moves.len() {
-            ply = rng.below(moves.len() + 1);
-        }
-    }
-    steps.truncate(len);
-    steps
-}
-
-/// Is every token of a PV line a legal move, one after another, from `root`?
-pub fn pv_fault(root: &Pos, line: &str) -> Option<String> {
-    let mut p = root.clone();
-    for (i, tok) in line.split_ascii_whitespace().enumerate() {
-        match p.find_uci(tok) {
-            Some(m) => p = p.make(&m),
-            None => {
-                return Some(format!("token {} ({tok:?}) is not a legal move in {}", i + 1, fen::render4(&p)));
-            }
-        }
-    }
-    None
 }
 
 // ------------------------------------------------------------------------------------------
